@@ -1,5 +1,684 @@
-//! pure-probe suite `time` (see /verif/ARCH.md). STUB — to be replaced.
-use crate::util::Tier;
+//! pure-probe suite `time`: DOS date/time packing (`time.rs`) and the 32-byte directory-entry codec (`dir_entry.rs`).
+//!
+//! Line formats (mirrored in /verif/lean/FatVerif/Model/TimeDriver.lean):
+//!
+//! ```text
+//! P time.date_encode y m d        => raw | PANIC
+//! P time.date_decode raw          => y m d
+//! P time.time_encode h mi s ms    => raw hi | PANIC
+//! P time.time_decode raw hi       => h mi s ms
+//! P time.date_rt y m d            => y' m' d' | PANIC        decode(encode(..))
+//! P time.time_rt h mi s ms        => h' mi' s' ms' | PANIC   decode(encode(..))            (creation stamp)
+//! P time.mtime_rt h mi s ms       => h' mi' s' ms' | PANIC   decode(encode(..).0, 0)       (modification stamp)
+//! P dirent.slot <hex> <alloc>     => F end del reser name attrs isdir isvol size fc16 fc32 c*7 a*3 m*7 short lower
+//!                                  | L end del reser order checksum units | ERR code
+//! P dirent.set_times <hex> <c|none> <a|none> <m|none> => <hex32> | none | PANIC      (c, m = y,mo,d,h,mi,s,ms  a = y,mo,d)
+//! P dirent.short_eq <hex11> <name utf8 hex> => 0|1           (names restricted to ASCII + U+FFFD)
+//! ```
+use crate::rng::SplitMix64;
+use crate::util::{b, catch, hex, hex_str, hex_units, opt, Tier};
+use fatfs::verif::{date_decode, date_encode, time_decode, time_encode};
+use fatfs::verif_dirent::{set_times_probe, short_name_eq, slot_probe, SlotInfo};
 use std::io::Write;
 
-pub fn run(_tier: Tier, _seed: u64, _out: &mut dyn Write) {}
+const ALLOC: bool = cfg!(feature = "alloc");
+
+type DT = (u16, u16, u16, u16, u16, u16, u16);
+type D3 = (u16, u16, u16);
+
+// ---------------------------------------------------------------------------------------------------------------
+// time.rs probes
+
+fn p_date_encode(out: &mut dyn Write, y: u16, m: u16, d: u16) {
+    match catch(|| date_encode(y, m, d)) {
+        Some(raw) => writeln!(out, "P time.date_encode {y} {m} {d} => {raw}").unwrap(),
+        None => writeln!(out, "P time.date_encode {y} {m} {d} => PANIC").unwrap(),
+    }
+}
+
+fn p_date_rt(out: &mut dyn Write, y: u16, m: u16, d: u16) {
+    match catch(|| date_decode(date_encode(y, m, d))) {
+        Some((y2, m2, d2)) => writeln!(out, "P time.date_rt {y} {m} {d} => {y2} {m2} {d2}").unwrap(),
+        None => writeln!(out, "P time.date_rt {y} {m} {d} => PANIC").unwrap(),
+    }
+}
+
+fn p_date_decode(out: &mut dyn Write, raw: u16) {
+    match catch(|| date_decode(raw)) {
+        Some((y, m, d)) => writeln!(out, "P time.date_decode {raw} => {y} {m} {d}").unwrap(),
+        None => writeln!(out, "P time.date_decode {raw} => PANIC").unwrap(),
+    }
+}
+
+fn p_time_encode(out: &mut dyn Write, h: u16, mi: u16, s: u16, ms: u16) {
+    match catch(|| time_encode(h, mi, s, ms)) {
+        Some((raw, hi)) => writeln!(out, "P time.time_encode {h} {mi} {s} {ms} => {raw} {hi}").unwrap(),
+        None => writeln!(out, "P time.time_encode {h} {mi} {s} {ms} => PANIC").unwrap(),
+    }
+}
+
+fn p_time_rt(out: &mut dyn Write, h: u16, mi: u16, s: u16, ms: u16) {
+    let r = catch(|| {
+        let (raw, hi) = time_encode(h, mi, s, ms);
+        time_decode(raw, hi)
+    });
+    match r {
+        Some((a, b2, c, d)) => writeln!(out, "P time.time_rt {h} {mi} {s} {ms} => {a} {b2} {c} {d}").unwrap(),
+        None => writeln!(out, "P time.time_rt {h} {mi} {s} {ms} => PANIC").unwrap(),
+    }
+}
+
+/// what `set_modified` + `modified()` do: the hi-res byte is dropped, decoding uses 0
+fn p_mtime_rt(out: &mut dyn Write, h: u16, mi: u16, s: u16, ms: u16) {
+    let r = catch(|| {
+        let (raw, _hi) = time_encode(h, mi, s, ms);
+        time_decode(raw, 0)
+    });
+    match r {
+        Some((a, b2, c, d)) => writeln!(out, "P time.mtime_rt {h} {mi} {s} {ms} => {a} {b2} {c} {d}").unwrap(),
+        None => writeln!(out, "P time.mtime_rt {h} {mi} {s} {ms} => PANIC").unwrap(),
+    }
+}
+
+fn p_time_decode(out: &mut dyn Write, raw: u16, hi: u8) {
+    match catch(|| time_decode(raw, hi)) {
+        Some((h, mi, s, ms)) => writeln!(out, "P time.time_decode {raw} {hi} => {h} {mi} {s} {ms}").unwrap(),
+        None => writeln!(out, "P time.time_decode {raw} {hi} => PANIC").unwrap(),
+    }
+}
+
+fn time_all3(out: &mut dyn Write, h: u16, mi: u16, s: u16, ms: u16) {
+    p_time_encode(out, h, mi, s, ms);
+    p_time_rt(out, h, mi, s, ms);
+    p_mtime_rt(out, h, mi, s, ms);
+}
+
+const BAD_YEARS: [u16; 10] = [0, 1, 1978, 1979, 2108, 2109, 2110, 4027, 32768, 65535];
+const BAD_MONTHS: [u16; 8] = [0, 13, 14, 15, 16, 17, 256, 65535];
+const BAD_DAYS: [u16; 7] = [0, 32, 33, 34, 63, 64, 65535];
+const EDGE_YEARS: [u16; 8] = [1980, 1981, 1982, 2043, 2044, 2105, 2106, 2107];
+const EDGE_MONTHS: [u16; 6] = [1, 2, 3, 10, 11, 12];
+const EDGE_DAYS: [u16; 8] = [1, 2, 3, 15, 16, 29, 30, 31];
+
+fn gen_dates(out: &mut dyn Write) {
+    // the complete valid domain: 128 * 12 * 31 = 47 616 dates, each through encode and encode∘decode
+    for y in 1980..=2107_u16 {
+        for m in 1..=12_u16 {
+            for d in 1..=31_u16 {
+                p_date_encode(out, y, m, d);
+                p_date_rt(out, y, m, d);
+            }
+        }
+    }
+    // out-of-range boundaries (must PANIC): one bad coordinate against edge values of the other two, then pairs
+    let mut years: Vec<u16> = EDGE_YEARS.to_vec();
+    years.extend_from_slice(&BAD_YEARS);
+    let mut months: Vec<u16> = EDGE_MONTHS.to_vec();
+    months.extend_from_slice(&BAD_MONTHS);
+    let mut days: Vec<u16> = EDGE_DAYS.to_vec();
+    days.extend_from_slice(&BAD_DAYS);
+    for &y in &years {
+        for &m in &months {
+            for &d in &days {
+                let valid = (1980..=2107).contains(&y) && (1..=12).contains(&m) && (1..=31).contains(&d);
+                if !valid {
+                    p_date_encode(out, y, m, d);
+                    p_date_rt(out, y, m, d);
+                }
+            }
+        }
+    }
+    // every raw u16 through decode
+    for raw in 0..=u16::MAX {
+        p_date_decode(out, raw);
+    }
+}
+
+const EDGE_HOURS: [u16; 9] = [0, 1, 2, 11, 12, 13, 21, 22, 23];
+const EDGE_MINS: [u16; 9] = [0, 1, 2, 30, 31, 32, 57, 58, 59];
+const EDGE_MS: [u16; 19] = [0, 1, 5, 9, 10, 11, 19, 20, 99, 100, 101, 499, 500, 501, 989, 990, 991, 998, 999];
+const BAD_HOURS: [u16; 7] = [24, 25, 26, 31, 32, 256, 65535];
+const BAD_MINS: [u16; 7] = [60, 61, 62, 63, 64, 256, 65535];
+const BAD_SECS: [u16; 8] = [60, 61, 62, 63, 64, 65, 256, 65535];
+const BAD_MS: [u16; 8] = [1000, 1001, 1002, 1023, 1024, 2560, 32768, 65535];
+
+fn gen_times(tier: Tier, rng: &mut SplitMix64, out: &mut dyn Write) {
+    // boundary-directed grid: edge hours × edge minutes × every second × edge millis (9*9*60*19 = 92 340 points)
+    for &h in &EDGE_HOURS {
+        for &mi in &EDGE_MINS {
+            for s in 0..60_u16 {
+                for &ms in &EDGE_MS {
+                    time_all3(out, h, mi, s, ms);
+                }
+            }
+        }
+    }
+    // every (h, mi) pair at a few seconds, every (mi, s) pair at a few hours
+    for h in 0..24_u16 {
+        for mi in 0..60_u16 {
+            for &s in &[0_u16, 1, 58, 59] {
+                time_all3(out, h, mi, s, *rng.pick(&EDGE_MS));
+            }
+        }
+    }
+    // uniform samples of the valid domain
+    for _ in 0..tier.pick(40_000, 400_000) {
+        let (h, mi, s, ms) = (rng.below(24) as u16, rng.below(60) as u16, rng.below(60) as u16, rng.below(1000) as u16);
+        time_all3(out, h, mi, s, ms);
+    }
+    // out-of-range: one bad coordinate (all values), then bad pairs
+    let good = |rng: &mut SplitMix64| {
+        (*rng.pick(&EDGE_HOURS), *rng.pick(&EDGE_MINS), rng.below(60) as u16, *rng.pick(&EDGE_MS))
+    };
+    for rep in 0..8 {
+        let _ = rep;
+        for &x in &BAD_HOURS {
+            let (_, mi, s, ms) = good(rng);
+            time_all3(out, x, mi, s, ms);
+        }
+        for &x in &BAD_MINS {
+            let (h, _, s, ms) = good(rng);
+            time_all3(out, h, x, s, ms);
+        }
+        for &x in &BAD_SECS {
+            let (h, mi, _, ms) = good(rng);
+            time_all3(out, h, mi, x, ms);
+        }
+        for &x in &BAD_MS {
+            let (h, mi, s, _) = good(rng);
+            time_all3(out, h, mi, s, x);
+        }
+        for &x in &BAD_HOURS {
+            for &y in &BAD_MS {
+                let (_, mi, s, _) = good(rng);
+                time_all3(out, x, mi, s, y);
+            }
+        }
+        for &x in &BAD_MINS {
+            for &y in &BAD_SECS {
+                let (h, _, _, ms) = good(rng);
+                time_all3(out, h, x, y, ms);
+            }
+        }
+    }
+    // decode: every raw u16 with the hi-res bytes on both sides of the /100 and %100 splits
+    for raw in 0..=u16::MAX {
+        for &hi in &[0_u8, 99, 100, 199, 200, 255] {
+            p_time_decode(out, raw, hi);
+        }
+    }
+    // decode: every hi-res byte against edge raws
+    for hi in 0..=u8::MAX {
+        for &raw in &[0_u16, 1, 30, 31, 32, 0x07FF, 0x0800, 0xBF7D, 0xFFFF] {
+            p_time_decode(out, raw, hi);
+        }
+    }
+    if tier == Tier::Thorough {
+        // the complete creation-stamp domain at 10 ms steps: 24*60*60*100 = 8 640 000 round trips
+        for h in 0..24_u16 {
+            for mi in 0..60_u16 {
+                for s in 0..60_u16 {
+                    for cs in 0..100_u16 {
+                        p_time_rt(out, h, mi, s, cs * 10);
+                    }
+                    // the modification stamp and the packing itself at every second; a millisecond off the 10 ms grid
+                    p_mtime_rt(out, h, mi, s, 0);
+                    p_time_encode(out, h, mi, s, (rng.below(100) * 10) as u16);
+                    let ms = (rng.below(100) * 10 + rng.range(1, 9)) as u16;
+                    p_time_rt(out, h, mi, s, ms);
+                }
+            }
+        }
+    }
+}
+
+// ---------------------------------------------------------------------------------------------------------------
+// dir_entry.rs probes
+
+fn dt_tokens(v: DT) -> String {
+    format!("{} {} {} {} {} {} {}", v.0, v.1, v.2, v.3, v.4, v.5, v.6)
+}
+
+fn slot_line(info: &SlotInfo) -> String {
+    if info.is_lfn {
+        format!(
+            "L {} {} {} {} {} {}",
+            b(info.is_end),
+            b(info.is_deleted),
+            hex(&info.reserialized),
+            info.order,
+            info.checksum,
+            hex_units(&info.units)
+        )
+    } else {
+        format!(
+            "F {} {} {} {} {} {} {} {} {} {} {} {} {} {} {} {} {}",
+            b(info.is_end),
+            b(info.is_deleted),
+            hex(&info.reserialized),
+            hex(&info.name),
+            info.attrs,
+            b(info.is_dir),
+            b(info.is_volume),
+            opt(info.size_opt),
+            opt(info.first_cluster_16),
+            opt(info.first_cluster_32),
+            dt_tokens(info.created),
+            info.accessed.0,
+            info.accessed.1,
+            info.accessed.2,
+            dt_tokens(info.modified),
+            hex(&info.short_display),
+            if ALLOC { hex(&info.lower_display) } else { "-".into() }
+        )
+    }
+}
+
+fn p_slot(out: &mut dyn Write, bytes: &[u8]) {
+    let res = match catch(|| slot_probe(bytes)) {
+        Some(Ok(info)) => slot_line(&info),
+        Some(Err(code)) => format!("ERR {code}"),
+        None => "PANIC".into(),
+    };
+    writeln!(out, "P dirent.slot {} {} => {}", hex(bytes), b(ALLOC), res).unwrap();
+}
+
+fn dt_arg(v: Option<DT>) -> String {
+    match v {
+        Some(v) => format!("{},{},{},{},{},{},{}", v.0, v.1, v.2, v.3, v.4, v.5, v.6),
+        None => "none".into(),
+    }
+}
+
+fn d_arg(v: Option<D3>) -> String {
+    match v {
+        Some(v) => format!("{},{},{}", v.0, v.1, v.2),
+        None => "none".into(),
+    }
+}
+
+fn p_set_times(out: &mut dyn Write, bytes: &[u8], c: Option<DT>, a: Option<D3>, m: Option<DT>) {
+    let res = match catch(|| set_times_probe(bytes, c, a, m)) {
+        Some(Some(v)) => hex(&v),
+        Some(None) => "none".into(),
+        None => "PANIC".into(),
+    };
+    writeln!(out, "P dirent.set_times {} {} {} {} => {}", hex(bytes), dt_arg(c), d_arg(a), dt_arg(m), res).unwrap();
+}
+
+fn p_short_eq(out: &mut dyn Write, raw: &[u8; 11], name: &str) {
+    let res = match catch(|| short_name_eq(raw, name)) {
+        Some(v) => b(v).to_string(),
+        None => "PANIC".into(),
+    };
+    writeln!(out, "P dirent.short_eq {} {} => {}", hex(raw), hex_str(name), res).unwrap();
+}
+
+const SFN_CHARS: &[u8] = b"ABCDEFGHIJKLMNOPQRSTUVWXYZ0123456789!#$%&'()-@^_`{}~";
+
+/// raw 11-byte short name: mostly valid padded names, sometimes odd bytes
+fn gen_raw_name(rng: &mut SplitMix64) -> [u8; 11] {
+    let mut n = [b' '; 11];
+    let base_len = match rng.below(8) {
+        0 => 0,
+        1 => 8,
+        _ => rng.range(1, 8),
+    } as usize;
+    let ext_len = match rng.below(4) {
+        0 => 0,
+        1 => 3,
+        _ => rng.range(0, 3),
+    } as usize;
+    for x in n.iter_mut().take(base_len) {
+        *x = *rng.pick(SFN_CHARS);
+    }
+    for x in n.iter_mut().skip(8).take(ext_len) {
+        *x = *rng.pick(SFN_CHARS);
+    }
+    // spice: embedded / leading spaces, lower case, OEM bytes, the special first bytes
+    match rng.below(16) {
+        0 => n[rng.below(11) as usize] = b' ',
+        1 => n[rng.below(11) as usize] = rng.range(b'a' as u64, b'z' as u64) as u8,
+        2 => n[rng.below(11) as usize] = rng.range(0x80, 0xFF) as u8,
+        3 => n[0] = 0x05,
+        4 => n[0] = 0xE5,
+        5 => n[0] = 0x00,
+        6 => n[rng.below(11) as usize] = 0x05,
+        7 => n[rng.below(11) as usize] = rng.below(256) as u8,
+        8 => n[8 + rng.below(3) as usize] = *rng.pick(SFN_CHARS),
+        _ => {}
+    }
+    n
+}
+
+fn gen_raw_date(rng: &mut SplitMix64) -> u16 {
+    match rng.below(8) {
+        0 => 0,
+        1 => 0xFFFF,
+        2 => rng.below(65536) as u16,
+        _ => (((rng.below(128)) << 9) | (rng.range(1, 12) << 5) | rng.range(1, 31)) as u16,
+    }
+}
+
+fn gen_raw_time(rng: &mut SplitMix64) -> u16 {
+    match rng.below(8) {
+        0 => 0,
+        1 => 0xFFFF,
+        2 => rng.below(65536) as u16,
+        _ => ((rng.below(24) << 11) | (rng.below(60) << 5) | rng.below(30)) as u16,
+    }
+}
+
+fn gen_file_slot(rng: &mut SplitMix64) -> [u8; 32] {
+    let mut s = [0_u8; 32];
+    s[..11].copy_from_slice(&gen_raw_name(rng));
+    s[11] = match rng.below(12) {
+        0 => 0x00,
+        1 => 0x10,
+        2 => 0x20,
+        3 => 0x08,
+        4 => 0x01 | 0x20,
+        5 => 0x02 | 0x04 | 0x20,
+        6 => 0x10 | 0x02,
+        7 => 0x28,
+        8 => 0x20 | 0x40,
+        9 => 0x10 | 0x80,
+        10 => (rng.below(64) as u8) & !0x08, // never all four LFN bits
+        _ => 0x20,
+    };
+    s[12] = match rng.below(8) {
+        0 => 0x08,
+        1 => 0x10,
+        2 => 0x18,
+        3 => rng.below(256) as u8,
+        _ => 0,
+    };
+    s[13] = match rng.below(4) {
+        0 => rng.below(256) as u8,
+        _ => rng.below(200) as u8,
+    };
+    s[14..16].copy_from_slice(&gen_raw_time(rng).to_le_bytes());
+    s[16..18].copy_from_slice(&gen_raw_date(rng).to_le_bytes());
+    s[18..20].copy_from_slice(&gen_raw_date(rng).to_le_bytes());
+    let cluster: u32 = match rng.below(8) {
+        0 => 0,
+        1 => 2,
+        2 => rng.below(0x1_0000) as u32,
+        3 => 0x0001_0000,
+        4 => 0x0FFF_FFF7,
+        5 => (rng.below(0x1_0000) as u32) << 16, // low word zero, high word set: FAT16 view is None
+        6 => rng.next_u32(),
+        _ => rng.range(2, 70_000) as u32,
+    };
+    s[20..22].copy_from_slice(&((cluster >> 16) as u16).to_le_bytes());
+    s[22..24].copy_from_slice(&gen_raw_time(rng).to_le_bytes());
+    s[24..26].copy_from_slice(&gen_raw_date(rng).to_le_bytes());
+    s[26..28].copy_from_slice(&((cluster & 0xFFFF) as u16).to_le_bytes());
+    let size: u32 = match rng.below(6) {
+        0 => 0,
+        1 => 1,
+        2 => u32::MAX,
+        3 => rng.next_u32(),
+        _ => rng.below(1 << 20) as u32,
+    };
+    s[28..32].copy_from_slice(&size.to_le_bytes());
+    s
+}
+
+fn gen_lfn_slot(rng: &mut SplitMix64) -> [u8; 32] {
+    let mut s = [0_u8; 32];
+    s[0] = match rng.below(10) {
+        0 => 0xE5,
+        1 => 0x00,
+        2 => rng.below(256) as u8,
+        3 | 4 | 5 => 0x40 | rng.range(1, 20) as u8,
+        _ => rng.range(1, 20) as u8,
+    };
+    // 13 units: text, then optionally 0x0000 terminator and 0xFFFF padding
+    let text_len = rng.range(0, 13) as usize;
+    let mut units = [0xFFFF_u16; 13];
+    for (i, u) in units.iter_mut().enumerate() {
+        if i < text_len {
+            *u = match rng.below(6) {
+                0 => rng.below(65536) as u16,
+                1 => rng.range(0x80, 0x24F) as u16,
+                _ => rng.range(0x20, 0x7E) as u16,
+            };
+        } else if i == text_len {
+            *u = 0;
+        }
+    }
+    let offs = [1, 3, 5, 7, 9, 14, 16, 18, 20, 22, 24, 28, 30];
+    for (u, &o) in units.iter().zip(offs.iter()) {
+        s[o..o + 2].copy_from_slice(&u.to_le_bytes());
+    }
+    s[11] = match rng.below(8) {
+        0 => 0x0F | 0x10,
+        1 => 0x0F | 0x20,
+        2 => 0x0F | 0x40,
+        3 => 0x0F | 0xC0,
+        4 => 0x3F,
+        5 => 0xFF,
+        _ => 0x0F,
+    };
+    s[12] = if rng.chance(1, 8) { rng.below(256) as u8 } else { 0 };
+    s[13] = rng.below(256) as u8;
+    let res: u16 = if rng.chance(1, 8) { rng.below(65536) as u16 } else { 0 };
+    s[26..28].copy_from_slice(&res.to_le_bytes());
+    s
+}
+
+fn gen_soup(rng: &mut SplitMix64) -> [u8; 32] {
+    let mut s = [0_u8; 32];
+    for chunk in s.chunks_mut(8) {
+        chunk.copy_from_slice(&rng.next_u64().to_le_bytes());
+    }
+    s
+}
+
+fn gen_slots(tier: Tier, rng: &mut SplitMix64, out: &mut dyn Write) {
+    // structured short entries and long-name slots
+    for _ in 0..tier.pick(20_000, 300_000) {
+        p_slot(out, &gen_file_slot(rng));
+    }
+    for _ in 0..tier.pick(10_000, 150_000) {
+        p_slot(out, &gen_lfn_slot(rng));
+    }
+    // every value of every byte of fixed base slots (file, directory with case flags, long-name, all-zero)
+    let mut base_file = [0_u8; 32];
+    base_file.copy_from_slice(&[
+        b'R', b'E', b'A', b'D', b'M', b'E', b' ', b' ', b'T', b'X', b'T', 0x20, 0x18, 0x7B, 0xB7, 0x64, 0x42, 0x50, 0x42,
+        0x50, 0x01, 0x00, 0x5C, 0x64, 0x42, 0x50, 0x34, 0x12, 0x78, 0x56, 0x34, 0x12,
+    ]);
+    let mut base_dir = base_file;
+    base_dir[11] = 0x10;
+    base_dir[0] = 0x05;
+    let base_lfn = {
+        let mut r = SplitMix64::new(0xFA7);
+        let mut s = gen_lfn_slot(&mut r);
+        s[0] = 0x42;
+        s[11] = 0x0F;
+        s
+    };
+    for base in [base_file, base_dir, base_lfn, [0_u8; 32]] {
+        for i in 0..32 {
+            for v in 0..=255_u8 {
+                let mut s = base;
+                s[i] = v;
+                p_slot(out, &s);
+            }
+        }
+    }
+    // every attribute byte against every first byte class
+    for attrs in 0..=255_u8 {
+        for &first in &[0x00_u8, 0x05, 0x20, 0x41, 0xE5] {
+            let mut s = base_file;
+            s[11] = attrs;
+            s[0] = first;
+            p_slot(out, &s);
+        }
+    }
+    // random soup (the malformed stream)
+    for _ in 0..tier.pick(20_000, 500_000) {
+        p_slot(out, &gen_soup(rng));
+    }
+    // truncated slots: EOF inside the name is an "end" entry, EOF later is an error; over-long input is cut at 32
+    for len in 0..=40_usize {
+        for k in 0..6 {
+            let mut v: Vec<u8> = match k % 3 {
+                0 => gen_file_slot(rng).to_vec(),
+                1 => gen_lfn_slot(rng).to_vec(),
+                _ => gen_soup(rng).to_vec(),
+            };
+            v.extend_from_slice(&gen_soup(rng)[..8]);
+            v.truncate(len);
+            p_slot(out, &v);
+        }
+    }
+}
+
+fn gen_dt(rng: &mut SplitMix64) -> DT {
+    let valid = !rng.chance(1, 12);
+    let mut y = match rng.below(3) {
+        0 => *rng.pick(&EDGE_YEARS),
+        _ => rng.range(1980, 2107) as u16,
+    };
+    let mut mo = match rng.below(3) {
+        0 => *rng.pick(&EDGE_MONTHS),
+        _ => rng.range(1, 12) as u16,
+    };
+    let mut d = match rng.below(3) {
+        0 => *rng.pick(&EDGE_DAYS),
+        _ => rng.range(1, 31) as u16,
+    };
+    let mut h = match rng.below(3) {
+        0 => *rng.pick(&EDGE_HOURS),
+        _ => rng.below(24) as u16,
+    };
+    let mut mi = match rng.below(3) {
+        0 => *rng.pick(&EDGE_MINS),
+        _ => rng.below(60) as u16,
+    };
+    let mut s = match rng.below(4) {
+        0 => *rng.pick(&[0_u16, 1, 2, 57, 58, 59]),
+        _ => rng.below(60) as u16,
+    };
+    let mut ms = match rng.below(3) {
+        0 => *rng.pick(&EDGE_MS),
+        _ => rng.below(1000) as u16,
+    };
+    if !valid {
+        match rng.below(7) {
+            0 => y = *rng.pick(&BAD_YEARS),
+            1 => mo = *rng.pick(&BAD_MONTHS),
+            2 => d = *rng.pick(&BAD_DAYS),
+            3 => h = *rng.pick(&BAD_HOURS),
+            4 => mi = *rng.pick(&BAD_MINS),
+            5 => s = *rng.pick(&BAD_SECS),
+            _ => ms = *rng.pick(&BAD_MS),
+        }
+    }
+    (y, mo, d, h, mi, s, ms)
+}
+
+fn gen_set_times(tier: Tier, rng: &mut SplitMix64, out: &mut dyn Write) {
+    for i in 0..tier.pick(30_000, 400_000) {
+        let slot: Vec<u8> = match rng.below(16) {
+            0 => gen_lfn_slot(rng).to_vec(),
+            1 | 2 => gen_soup(rng).to_vec(),
+            3 => {
+                // truncated input: < 11 bytes behaves as the all-zero entry, 11..31 is an error
+                let mut v = gen_file_slot(rng).to_vec();
+                v.truncate(rng.below(32) as usize);
+                v
+            }
+            _ => gen_file_slot(rng).to_vec(),
+        };
+        // all 8 presence combinations in turn
+        let c = if i & 1 != 0 { Some(gen_dt(rng)) } else { None };
+        let a = if i & 2 != 0 {
+            let v = gen_dt(rng);
+            Some((v.0, v.1, v.2))
+        } else {
+            None
+        };
+        let m = if i & 4 != 0 { Some(gen_dt(rng)) } else { None };
+        p_set_times(out, &slot, c, a, m);
+    }
+}
+
+fn lossy_display(raw: &[u8; 11]) -> String {
+    // independent rendering of base[.ext] used only to derive candidate names (the expected answer comes from the model)
+    let base_end = raw[..8].iter().rposition(|&c| c != b' ').map_or(0, |p| p + 1);
+    let ext_end = raw[8..].iter().rposition(|&c| c != b' ').map_or(0, |p| p + 1);
+    let mut v: Vec<u8> = raw[..base_end].to_vec();
+    if ext_end > 0 {
+        v.push(b'.');
+        v.extend_from_slice(&raw[8..8 + ext_end]);
+    }
+    if v.first() == Some(&0x05) {
+        v[0] = 0xE5;
+    }
+    v.iter().map(|&c| if c < 0x80 { c as char } else { '\u{FFFD}' }).collect()
+}
+
+fn gen_short_eq(tier: Tier, rng: &mut SplitMix64, out: &mut dyn Write) {
+    for _ in 0..tier.pick(20_000, 200_000) {
+        let raw = gen_raw_name(rng);
+        let disp = lossy_display(&raw);
+        let mut chars: Vec<char> = disp.chars().collect();
+        match rng.below(10) {
+            0 | 1 => {}
+            2 | 3 => {
+                // flip the case of some letters: still equal
+                for c in chars.iter_mut() {
+                    if rng.chance(1, 2) {
+                        *c = if c.is_ascii_uppercase() { c.to_ascii_lowercase() } else { c.to_ascii_uppercase() };
+                    }
+                }
+            }
+            4 => {
+                for c in chars.iter_mut() {
+                    *c = c.to_ascii_lowercase();
+                }
+            }
+            5 => {
+                if !chars.is_empty() {
+                    let i = rng.below(chars.len() as u64) as usize;
+                    chars[i] = *rng.pick(SFN_CHARS) as char;
+                }
+            }
+            6 => {
+                if !chars.is_empty() {
+                    chars.remove(rng.below(chars.len() as u64) as usize);
+                }
+            }
+            7 => chars.insert(rng.below(chars.len() as u64 + 1) as usize, *rng.pick(b" .aZ~\x7f") as char),
+            8 => {
+                // the un-trimmed / raw spelling
+                chars = raw.iter().map(|&c| if c < 0x80 { c as char } else { '\u{FFFD}' }).collect();
+            }
+            _ => {
+                if !chars.is_empty() {
+                    let i = rng.below(chars.len() as u64) as usize;
+                    chars[i] = *rng.pick(&['\u{FFFD}', '\u{5}', ' ', '.', '\u{0}']);
+                }
+            }
+        }
+        let name: String = chars.into_iter().collect();
+        p_short_eq(out, &raw, &name);
+    }
+}
+
+pub fn run(tier: Tier, seed: u64, out: &mut dyn Write) {
+    let mut rng = SplitMix64::new(seed);
+    let mut r_time = rng.fork();
+    let mut r_slot = rng.fork();
+    let mut r_set = rng.fork();
+    let mut r_eq = rng.fork();
+    gen_dates(out);
+    gen_times(tier, &mut r_time, out);
+    gen_slots(tier, &mut r_slot, out);
+    gen_set_times(tier, &mut r_set, out);
+    gen_short_eq(tier, &mut r_eq, out);
+}
